@@ -492,3 +492,15 @@ V("C03", "query-not-relative", "F", "R6", R + "vcs.py", "        path = relative
 V("C14", "glob-root-unescaped", "F", "R7", PRJ, 'directory = str(Path(glob.escape(str(self.root))) / "LICENSES/**")', 'directory = str(self.root / "LICENSES/**")')
 B("C14", "glob-escape-os-join", PRJ, 'directory = str(Path(glob.escape(str(self.root))) / "LICENSES/**")', 'directory = os.path.join(glob.escape(str(self.root)), "LICENSES", "**")')
 B("C06", "glob-escape-os-join", PRJ, 'directory = str(Path(glob.escape(str(self.root))) / "LICENSES/**")', 'directory = os.path.join(glob.escape(str(self.root)), "LICENSES", "**")')
+# ----------------------------------------------------------------- benign feature additions (must stay silent)
+CMT = R + "comment.py"
+for _p in ("C02", "C07", "C10", "C11", "C14", "C08"):
+    VARIANTS.append({"prop": _p, "id": f"{_p}:benign3-new-comment-style", "expect": "S", "rule": "", "edits": [
+        {"file": CMT, "old": "class CppCommentStyle(CommentStyle):\n", "new": "class ZigCommentStyle(CommentStyle):\n    \"\"\"Zig comment style.\"\"\"\n\n    SHORTHAND = \"zig\"\n\n    SINGLE_LINE = \"//\"\n    INDENT_AFTER_SINGLE = \" \"\n\n\nclass CppCommentStyle(CommentStyle):\n"},
+        {"file": CMT, "old": "    \".cson\": PythonCommentStyle,\n", "new": "    \".cson\": PythonCommentStyle,\n    \".zig\": ZigCommentStyle,\n"}]})
+for _p in ("C01", "C13", "C15", "C16"):
+    VARIANTS.append({"prop": _p, "id": f"{_p}:benign3-extra-log-lines", "expect": "S", "rule": "", "edits": [
+        {"file": R + "cli/lint.py", "old": "    report = ProjectReport.generate(", "new": "    import logging\n\n    logging.getLogger(__name__).debug(\"generating the project report\")\n    report = ProjectReport.generate("}]})
+for _p in ("C03", "C04", "C14"):
+    VARIANTS.append({"prop": _p, "id": f"{_p}:benign3-docstring-and-debug", "expect": "S", "rule": "", "edits": [
+        {"file": R + "covered_files.py", "old": "    if path.is_symlink():\n", "new": "    # symlinks are never covered files\n    if path.is_symlink():\n"}]})
